@@ -58,7 +58,7 @@ impl Property for C03 {
         cfg.hostile = true;
         cfg.max_blocks = 8;
         (crate::gen::doc::text(&cfg), prop_oneof![Just(String::new()), Just(".md".to_string())])
-            .prop_map(|(text, ext)| DocCase { text, ext, door: 0 })
+            .prop_map(|(text, ext)| DocCase { text, ext, door: 0, prev: String::new() })
             .boxed()
     }
     fn check(&self, case: &DocCase, stats: &mut Stats) -> Verdict {
